@@ -171,15 +171,18 @@ Definition range_check (t : lty) (v : pyval) : lit_result :=
 Definition is_int_ty (t : lty) : bool :=
   match t with LtInteger | LtLong => true | _ => false end.
 
-Definition literal_parse (tok0 : str) (tc : option Z) : lit_result :=
-  let tok := map lower tok0 in
+Definition starts_amp (s : str) : bool :=
+  match s with c :: _ => c =? ch_amp | [] => false end.
+
+(* token.startswith('&') : base 16 after "&h", otherwise 8 *)
+Definition parse_radix (tok : str) (tc : option Z) : lit_result :=
   let t0 := match tc with Some c => lty_of_char c | None => LtSingle end in
+  let bad_tc := match tc with
+                | Some c => negb ((c =? ch_pct) || (c =? ch_amp))
+                | None => false end in
+  if bad_tc then LitErr 2 else
   match tok with
-  | 38 :: mk :: ds =>          (* token.startswith('&') *)
-    let bad_tc := match tc with
-                  | Some c => negb ((c =? ch_pct) || (c =? ch_amp))
-                  | None => false end in
-    if bad_tc then LitErr 2 else
+  | _ :: mk :: ds =>
     let r := if mk =? 104 then radix_val 16 is_hex ds 0 false
              else radix_val 8 is_oct ds 0 false in
     match r with
@@ -191,34 +194,41 @@ Definition literal_parse (tok0 : str) (tc : option Z) : lit_result :=
                end in
       range_check t (PInt v)
     end
-  | _ =>
-    let has_d := mem_ch 100 tok in
-    let has_e := mem_ch 101 tok in
-    let has_dot := mem_ch ch_dot tok in
-    let tc_is (c : Z) := match tc with Some c' => c' =? c | None => true end in
-    if has_d && negb (tc_is ch_hash) then LitErr 3
-    else if negb has_d && has_e && negb (tc_is ch_bang) then LitErr 4
-    else
-      let t := if has_d then LtDouble
-               else if has_e then LtSingle
-               else match tc with
-                    | Some _ => t0
-                    | None => if has_dot then LtSingle else LtLong
-                    end in
-      let tok' := if has_d then map (fun c => if c =? 100 then 101 else c) tok else tok in
-      let v := if is_int_ty t then option_map PInt (py_int tok')
-               else option_map PFloat (py_float tok') in
-      match v with
-      | None => LitErr 5
-      | Some v =>
-        let t' := match tc, t, v with
-                  | None, LtLong, PInt z =>
-                    if (-32768 <=? z) && (z <? 32768) then LtInteger else LtLong
-                  | _, _, _ => t
-                  end in
-        range_check t' v
-      end
+  | _ => LitErr 9
   end.
+
+Definition parse_dec (tok : str) (tc : option Z) : lit_result :=
+  let t0 := match tc with Some c => lty_of_char c | None => LtSingle end in
+  let has_d := mem_ch 100 tok in
+  let has_e := mem_ch 101 tok in
+  let has_dot := mem_ch ch_dot tok in
+  let tc_is (c : Z) := match tc with Some c' => c' =? c | None => true end in
+  if has_d && negb (tc_is ch_hash) then LitErr 3
+  else if negb has_d && has_e && negb (tc_is ch_bang) then LitErr 4
+  else
+    let t := if has_d then LtDouble
+             else if has_e then LtSingle
+             else match tc with
+                  | Some _ => t0
+                  | None => if has_dot then LtSingle else LtLong
+                  end in
+    let tok' := if has_d then map (fun c => if c =? 100 then 101 else c) tok else tok in
+    let v := if is_int_ty t then option_map PInt (py_int tok')
+             else option_map PFloat (py_float tok') in
+    match v with
+    | None => LitErr 5
+    | Some v =>
+      let t' := match tc, t, v with
+                | None, LtLong, PInt z =>
+                  if (-32768 <=? z) && (z <? 32768) then LtInteger else LtLong
+                | _, _, _ => t
+                end in
+      range_check t' v
+    end.
+
+Definition literal_parse (tok0 : str) (tc : option Z) : lit_result :=
+  let tok := map lower tok0 in
+  if starts_amp tok then parse_radix tok tc else parse_dec tok tc.
 
 (* ---- _exec_sdbl ---- *)
 
